@@ -373,7 +373,7 @@ pub fn run(ctx: &Ctx) {
     }
   });
   ctx.subspace(&format!("civil festivals by date: every civil date {}..{}", ya, yb), done, (b - a) as u64);
-  let years: Vec<i32> = if ctx.quick() { (1..=9998).filter(|y| in_windows(&quick_windows(ctx.seed), *y as isize) || (1925..=2035).contains(y)).collect() } else { (1..=9998).collect() };
+  let years: Vec<i32> = if ctx.quick() { (1..=9998).filter(|y| in_windows(&quick_windows(ctx.seed), *y as isize) || (1925..=2035).contains(y) || y % 9 == 0).collect() } else { (1..=9998).collect() };
   let done = par_chunks(ctx, 0, years.len(), 8, |x, y, l| {
     for i in x..y {
       check_solar_index(ctx, years[i], l);
